@@ -233,7 +233,12 @@ func (s *scanner) ReadObject() (Native, error) {
 		if err != nil && err != io.EOF {
 			return nil, err
 		}
-		buf, _ = s.PeekN(6) // len("stream") == 6
+		buf, err = s.PeekN(6) // len("stream") == 6
+		if err != nil {
+			// a read error, not the end of the input (which gives a
+			// short buffer and no error)
+			return nil, err
+		}
 		if !bytes.HasPrefix(buf, []byte("stream")) {
 			return dict, nil
 		}
